@@ -32,12 +32,22 @@ class Src:
             return 0.45 - 0.2 * self.eq
         if self.kind == "c":
             return 0.7 + 0.1 * self.eq + 0.0 * x
-        if self.kind == "x":
+        if self.kind in ("x", "t"):
             return 0.3 * (self.eq + 1) + x * x
+        if self.kind == "s":
+            return q[1] + 0.0
         return 0.1 * q[0] - 0.05 * q[1] + 0.01 * self.eq * q[-1]
 
     def __call__(self, x, q):
         self.calls += 1
+        if self.kind == "t":
+            # a tabulated profile computed once and handed out again at every call (the same array object)
+            if getattr(self, "table", None) is None:
+                self.table = self.value(np.asarray(x, float), None)
+                self.table0 = self.table.copy()
+            return self.table
+        if self.kind == "s":
+            return q[1]             # an entry of the state itself, not a copy
         v = self.value(np.asarray(x, float), [np.asarray(d, float) for d in q])
         return float(v) if self.kind == "f" else v
 
@@ -70,8 +80,14 @@ def check(mkind, law, flux, rname, mspec, kinds, idx, res=None):
         al = space.cons_alphabet("shallowwater" if mkind == "shallowwater" else "euler1d", "mild")
         f = space.field_from_letters(m_with, mesh, al, idx)
         f2 = space.field_from_letters(m_wo, mesh, al, idx)
+        second = any(k in ("t", "s") for k in kinds)
         with np.errstate(all="ignore"):
             Rw = [np.asarray(r, float).copy() for r in d_with.rhs(f)]
+            if second:      # sources that hand out long-lived arrays: the operator is evaluated a second time and that evaluation is judged
+                for s_ in srcs:
+                    if s_:
+                        s_.calls = 0
+                Rw = [np.asarray(r, float).copy() for r in d_with.rhs(f)]
             R0 = [np.asarray(r, float).copy() for r in d_wo.rhs(f2)]
     except RecursionError as e:
         return [(site + "/exception", "%s %s sources %r: rhs raised RecursionError" % (mkind, law, kinds))]
@@ -79,6 +95,13 @@ def check(mkind, law, flux, rname, mspec, kinds, idx, res=None):
         return [(site + "/exception", "%s %s sources %r: rhs raised %r" % (mkind, law, kinds, e))]
     x = np.asarray(mesh.centers(), float)
     q = [np.asarray(d, float) for d in f.data]
+    if not all(np.array_equal(a, b) for a, b in zip(f.data, f2.data)):
+        out.append((site + "/field-modified", "%s %s sources %r data %r: evaluating the operator changed the field it was given" % (mkind, law, kinds, idx)))
+        q = [np.asarray(d, float) for d in f2.data]
+    for s_ in srcs:
+        if s_ and s_.kind == "t" and not np.array_equal(s_.table, s_.table0):
+            out.append((site + "/source-output-modified", "%s %s sources %r: the array returned by a source function was changed by the library (%r -> %r)" % (
+                mkind, law, kinds, s_.table0.tolist(), s_.table.tolist())))
     for i in range(neq):
         want = (srcs[i].value(x, q) + np.zeros(mesh.ncell)) if srcs[i] else np.zeros(mesh.ncell)
         got = Rw[i] - R0[i]
@@ -139,6 +162,7 @@ def shard(arg):
     res = core.Res()
     neq = 2 if mkind == "shallowwater" else 3
     extra = [k for k in itertools.product((None, "f", "q"), repeat=neq) if "f" in k] + [k for k in itertools.product((None, "S", "x"), repeat=neq) if k.count("S") >= 2]
+    extra += [k for k in itertools.product((None, "t", "s"), repeat=neq) if any(k)]
     for kinds in list(itertools.product((None, "c", "x", "q"), repeat=neq)) + extra:
         for mspec in MESHES:
             n = mspec[1] if mspec[0] in ("uni", "ref") else len(mspec[1])
